@@ -69,10 +69,15 @@ struct Obs {
 }
 
 fn run_with_limit(src: &str, stack: &[u64], max_cycles: Option<u32>) -> Result<Obs, String> {
+    run_with_limit_and_hint(src, stack, max_cycles, 64)
+}
+
+/// `expected`: the expected-cycles hint (a capacity hint; it must not move the limit)
+fn run_with_limit_and_hint(src: &str, stack: &[u64], max_cycles: Option<u32>, expected: u32) -> Result<Obs, String> {
     let program = assembler().compile(src).map_err(|e| format!("asm: {e}"))?;
     let opts = match max_cycles {
         None => ExecutionOptions::default(),
-        Some(m) => ExecutionOptions::new(Some(m), 64, false).map_err(|e| format!("options: {e:?}"))?,
+        Some(m) => ExecutionOptions::new(Some(m), expected, false).map_err(|e| format!("options: {e:?}"))?,
     };
     guard::catch(|| {
         let mut p = Process::new(program.kernel().clone(), stack_inputs(stack), host(&[]), opts);
@@ -94,12 +99,12 @@ fn run_with_limit(src: &str, stack: &[u64], max_cycles: Option<u32>) -> Result<O
     })
 }
 
-fn check_case(ctx: &Ctx, src: &str, stack: &[u64], n: Option<u32>, full_mem: &[(u64, u64)], m: u32) {
-    let case = json!({"kind": "limit", "src": src, "stack": stack, "m": m, "n": n});
+fn check_case(ctx: &Ctx, src: &str, stack: &[u64], n: Option<u32>, full_mem: &[(u64, u64)], m: u32, expected: u32) {
+    let case = json!({"kind": "limit", "src": src, "stack": stack, "m": m, "n": n, "expected": expected});
     let fail = |what: &str, detail: String| {
-        ctx.fail(json!({"kind": what}), format!("m={m} n={n:?} {detail} :: {src} {stack:?}"), case.clone())
+        ctx.fail(json!({"kind": what}), format!("m={m} n={n:?} expected-cycles hint {expected}: {detail} :: {src} {stack:?}"), case.clone())
     };
-    match run_with_limit(src, stack, Some(m)) {
+    match run_with_limit_and_hint(src, stack, Some(m), expected) {
         Err(p) => fail("panic", guard::short_panic(&p)),
         Ok(o) => {
             let should_succeed = n.map(|n| m >= n).unwrap_or(false);
@@ -139,7 +144,7 @@ pub fn run(ctx: &Ctx, replay: Option<&Value>) -> i32 {
             println!("unlimited run: result={:?} clk={}", full.result, full.clk);
             let o = run_with_limit(src, &stack, Some(m)).unwrap();
             println!("limit m={m}: result={:?} clk={} (expected: success iff m >= {n:?})", o.result, o.clk);
-            check_case(ctx, src, &stack, n, &full.mem, m);
+            check_case(ctx, src, &stack, n, &full.mem, m, case["expected"].as_u64().unwrap_or(64) as u32);
         } else {
             check_options_case(ctx, case["max"].as_u64().map(|x| x as u32), case["expected"].as_u64().unwrap() as u32);
         }
@@ -182,10 +187,18 @@ pub fn run(ctx: &Ctx, replay: Option<&Value>) -> i32 {
         let _ = p;
         cases.extend(ms.into_iter().filter(|&m| m >= 64).map(|m| (i, m)));
     }
+    // every limit with the minimal capacity hint and with the hint equal to the limit (the largest
+    // valid one; capped, since the hint pre-allocates the trace): the hint must not move the limit
+    let hinted = std::sync::atomic::AtomicU64::new(0);
     cases.par_iter().for_each(|&(i, m)| {
         let p = &progs[i];
-        check_case(ctx, &p.src, &p.stack, measured[i].0, &measured[i].1, m);
+        check_case(ctx, &p.src, &p.stack, measured[i].0, &measured[i].1, m, 64);
+        if m > 64 && m <= 1 << 15 {
+            check_case(ctx, &p.src, &p.stack, measured[i].0, &measured[i].1, m, m);
+            hinted.fetch_add(1, std::sync::atomic::Ordering::Relaxed);
+        }
     });
+    ctx.count("limit_cases_with_hint_equal_to_limit", hinted.into_inner());
     for &(i, m) in cases.iter().step_by(cases.len() / 6 + 1) {
         ctx.sample(json!({"src": progs[i].src, "stack": progs[i].stack, "n": measured[i].0, "m": m}));
     }
